@@ -39,7 +39,7 @@ THEOREMS = ["Cppcheck.C26." + t for t in (
     "toXML_roundtrip_partial", "toXML_wf_partial", "rawOK_ignores_messages", "toXML_wf_counterexample", "toXML_roundtrip_counterexample",
     "rng_els", "rng_error_names", "rng_loc_names", "rng_sev", "toXML_conforms_rng_partial",
     "sarif_results", "sarif_rules", "sarif_drops_unlocated", "sarif_string_roundtrip",
-    "render_eq_spec_partial", "render_injection_counterexample",
+    "render_eq_spec_partial", "render_injection_counterexample", "render_hang_counterexample",
     "each_once", "stdLogger_all_partial", "xml_dedup_by_text_counterexample")]
 
 GEN_ENT = "TinyXmlEntities"
@@ -365,7 +365,7 @@ def canon_xerr(x):
 
 
 RNG = {}
-BRK = [0]      # 1 when the working tree's toString has the `pos2 == npos` guard (translator)
+BRK = [1]      # the model of record has the `pos2 == npos` guard of fix 3652a18 (T5 checks that the source has it)
 NCNAME = re.compile(r"^[A-Za-z_][A-Za-z0-9_.\-]*$")
 
 
@@ -419,8 +419,9 @@ def classify_rng(probs):
     lag = re.compile(r"attribute (origfile|remark|guideline|classification) not in the schema|severity=b'(debug|internal|)' not among|hash=1 violates")
     if all(lag.search(p) for p in probs):
         return "xml-rng-schema-lag"
-    if all(lag.search(p) or "id is not an NCName" in p for p in probs):
-        return "premise:id-not-ncname"
+    prem = re.compile(r"id is not an NCName|severity=b'' not among")     # ids are NCNames, Severity::none is never reported
+    if all(prem.search(p) for p in probs):
+        return "premise:id-not-ncname-or-severity-none"
     return None
 
 
@@ -776,7 +777,7 @@ def check_xml_case(res, f, impl_doc, model_line, where):
         if probs:
             key = classify_rng(probs)
             if key and key.startswith("premise:"):
-                res.count("rng:outside-premise(id not an NCName)")
+                res.count("rng:outside-premise(id not an NCName / severity none)")
             else:
                 res.count("rng:violation:" + str(key))
                 res.violation("XML output does not conform to cppcheck-errors.rng: %s" % "; ".join(probs[:4]),
@@ -897,8 +898,11 @@ def run(ctx, res):
         res.oblig("T:translators", False, "translation", "unrecognised shape: %s" % ex)
     if info:
         RNG.clear(); RNG.update(info["rng"])
-        BRK[0] = 1 if info["brk"] else 0
-        res.oblig("T5:toString-inconclusive-loop-shape", True, "translation", "guard against unterminated marker: %s" % info["brk"])
+        # the guarded loop (fix 3652a18) is the model of record: the unguarded shape is reported, never silently modelled
+        BRK[0] = 1
+        res.oblig("T5:toString-inconclusive-loop-guarded", bool(info["brk"]), "translation",
+                  "" if info["brk"] else "ErrorMessage::toString: the {inconclusive: loop has no `if (pos2 == std::string::npos) break;` guard "
+                  "(an unterminated marker at offset 0 makes toString loop forever, F26f)")
     mark("translate")
     core.prove(ctx, res, MODULES, THEOREMS)
     mark("prove")
@@ -906,6 +910,7 @@ def run(ctx, res):
     # VERIF_C26_HARNESS: a harness linked against a hand-mutated copy of an anchored source file (mutation experiments
     # of docs/C26.md, tools in corpus/C26/mutate.py); never set in a normal run
     exe = os.environ.get("VERIF_C26_HARNESS") or ctx.harness("c26")
+    TOOLS["drv"], TOOLS["exe"] = drv, exe
     mark("driver+harness")
     try:
         CRITICAL.update(extract_critical())
@@ -1122,8 +1127,8 @@ def cli_case(ctx, res, case):
     """one CLI scenario: files with one `#error` each (or given verbatim), one output mode.
     Ties the StdLogger model (duplicate filter keyed by the text rendering + the writers) to the real binary and evaluates
     P_impl on what the binary printed.  Returns True when the property fails on this scenario."""
-    drv = ctx.driver("drv_c26")
-    exe = ctx.harness("c26")
+    drv, exe = TOOLS.get("drv") or ctx.driver("drv_c26"), TOOLS.get("exe") or ctx.harness("c26")
+    TOOLS["drv"], TOOLS["exe"] = drv, exe        # built once per run (every ctx.driver call queues for the lake lock)
     d = os.path.join(ctx.tmp, "cli_%d" % ctx.rng.getrandbits(40))
     os.makedirs(d)
     names = []
@@ -1243,6 +1248,7 @@ def cli_case(ctx, res, case):
 
 
 DEFAULT_TPL = [b"", b""]
+TOOLS = {}
 
 
 def rp_scenario(ctx, res):
@@ -1345,7 +1351,7 @@ def replay(ctx, res, rp):
     try:
         info = translate(ctx)
         RNG.clear(); RNG.update(info["rng"])
-        BRK[0] = 1 if info["brk"] else 0
+        BRK[0] = 1
         CRITICAL.update(extract_critical())
     except Unrecognised:
         pass
